@@ -51,4 +51,4 @@ class FixDeprecatedLoggingWarn(SimpleCodemod, NameResolutionMixin):
                 return updated_node.with_changes(
                     func=updated_node.func.with_changes(attr=warning)
                 )
-        return original_node
+        return updated_node
